@@ -316,6 +316,12 @@ func c14WideDomain(g *Gen, d c14Desc, n int) []octosql.Value {
 			out = append(out, v)
 		}
 	}
+	if d.arg == "Float" || (d.arg != "Int" && d.arg != "Duration" && d.arg != "Time") {
+		// values that Compare equal with different representations, in a domain wide enough for the hash maps of the
+		// DISTINCT wrappers to grow (equal values must stay ONE key whatever their hashes' high bits are)
+		add(octosql.NewFloat(0))
+		add(octosql.NewFloat(math.Copysign(0, -1)))
+	}
 	for len(out) < n {
 		switch d.arg {
 		case "Int":
